@@ -48,7 +48,31 @@ def run_case(cs, ctx):
     ctx.cov('maxrank_%s_students' % ('lt' if R < ns else 'eq' if R == ns else 'gt'))
     try:
         s = Solver(argv)
-        if cs % 6 == 1:
+        if cs % 20 == 7:
+            # failure at a particular point: the first solve dies in the middle of the enumeration
+            # (a failpoint on is_valid raises at its k-th call); the object is then solved again
+            import matchingproblems.solver.brute_force_solver as bfm
+            cls = getattr(bfm, 'Brute_force_solver', None)
+            if cls is not None and hasattr(cls, 'is_valid'):
+                orig_iv = cls.is_valid
+                state = {'n': 0, 'k': rng.randint(1, max(1, min(60, (spec['np'] + 1) ** spec['ns'] - 1)))}
+
+                def failing(self_, pairs_):
+                    state['n'] += 1
+                    if state['n'] == state['k']:
+                        raise RuntimeError('injected failure inside the enumeration')
+                    return orig_iv(self_, pairs_)
+                cls.is_valid = failing
+                try:
+                    s.solve()
+                except RuntimeError:
+                    ctx.cnt('first_solve_interrupted_by_failpoint')
+                finally:
+                    cls.is_valid = orig_iv
+        if cs % 10 == 3:
+            s.solve(timeLimit=1e-06)      # brute force enumerates everything whatever the limit says
+            ctx.cov('solve_called_with_tiny_time_limit')
+        elif cs % 6 == 1:
             s.solve(msg=True, threads=1)      # documented arguments of solve(); brute force takes no notice of them
             ctx.cov('solve_called_with_msg_true')
         else:
